@@ -174,6 +174,15 @@ func NewSolver(kind string, timeoutMs int, stats *SolverStats) (*Solver, error) 
 	return s, nil
 }
 
+func (s *Solver) resetMode() bool { return strings.HasPrefix(s.kind, "z3") && os.Getenv("VERIF_Z3_PUSHPOP") == "" }
+
+func (s *Solver) endQuery() string {
+	if s.resetMode() {
+		return "(reset)\n"
+	}
+	return "(pop 1)\n"
+}
+
 func (s *Solver) Close() {
 	if s == nil || s.dead || s.oneShot {
 		return
@@ -230,6 +239,12 @@ func (s *Solver) Check(asserts []*Term, wantModel bool) (Result, Model, error) {
 		n := atomic.AddInt64(&dumpCounter, 1)
 		os.WriteFile(fmt.Sprintf("%s/q-%06d.smt2", d, n), []byte(script), 0o644)
 	}
+	if s.resetMode() {
+		// no push/pop: a check-sat outside any scope uses z3's tactic-based solver, and
+		// (reset) between queries keeps the process from degrading (measured: push/pop
+		// rounds made 1 s queries take 4 s and more after ~150 rounds)
+		script = strings.TrimPrefix(script, "(push 1)\n")
+	}
 	if _, err := io.WriteString(s.in, script+"(echo \"CHK\")\n"); err != nil {
 		s.dead = true
 		return Unknown, nil, err
@@ -237,7 +252,12 @@ func (s *Solver) Check(asserts []*Term, wantModel bool) (Result, Model, error) {
 	// hard deadline: the soft per-query limit (-t) is not honoured inside some
 	// preprocessing phases; a solver that overruns it by far is killed, the query
 	// is answered unknown and the next query gets a fresh process
-	wd := time.AfterFunc(2*s.timeout+3*time.Second, func() { s.cmd.Process.Kill() })
+	wd := time.AfterFunc(2*s.timeout+3*time.Second, func() {
+		if os.Getenv("VERIF_VERBOSE") != "" {
+			fmt.Fprintf(os.Stderr, "  [solver] %s overran its %v limit: killed\n", s.kind, s.timeout)
+		}
+		s.cmd.Process.Kill()
+	})
 	lines, err := s.readUntil("CHK")
 	wd.Stop()
 	if err != nil {
@@ -264,7 +284,7 @@ func (s *Solver) Check(asserts []*Term, wantModel bool) (Result, Model, error) {
 		os.WriteFile(fmt.Sprintf("%s/unknown-%d.smt2", os.Getenv("VERIF_DUMP"), n), []byte(script), 0o644)
 	}
 	if errline != "" {
-		io.WriteString(s.in, "(pop 1)\n")
+		io.WriteString(s.in, s.endQuery())
 		atomic.AddInt64(&s.stats.Unknown, 1)
 		return Unknown, nil, fmt.Errorf("solver error: %s", errline)
 	}
@@ -285,13 +305,13 @@ func (s *Solver) Check(asserts []*Term, wantModel bool) (Result, Model, error) {
 		}
 		model, err = parseValues(strings.Join(vl, " "))
 		if err != nil {
-			io.WriteString(s.in, "(pop 1)\n")
+			io.WriteString(s.in, s.endQuery())
 			return Unknown, nil, err
 		}
 	} else if res == Sat {
 		model = Model{}
 	}
-	io.WriteString(s.in, "(pop 1)\n")
+	io.WriteString(s.in, s.endQuery())
 	switch res {
 	case Sat:
 		atomic.AddInt64(&s.stats.Sat, 1)
